@@ -5,7 +5,10 @@
                     loop |-> "p" (parent's loop) | "a" | "b" | "N" (own new loop),
                     act  |-> action identity (equal identity = identical action),
                     fits |-> BOOLEAN (the match fits the event),
-                    wrap |-> BOOLEAN (the flow waits for a helper flow that matches the event)].
+                    wrap |-> BOOLEAN (the flow waits for a helper flow that matches the event),
+                    doomed |-> BOOLEAN (the flow is stopped while the same event is still being processed: the flow that
+                               started it ends a few internal steps later; by the time the actions are decided it is no
+                               longer running, so it does not compete and must not get its action started)].
    Scores are exact rationals <<num, den>> = 0.9^k * priority.                                  *)
 EXTENDS Sequences, Naturals, FiniteSets, TLC
 
@@ -27,7 +30,7 @@ Dominates(u, w) ==
   IN Cardinality(diff) = 1 /\ \A i \in diff : Less(At(w, i), At(u, i))
 (* competitors that can meet in conflict resolution: same interaction loop *)
 LoopKey(cs, i) == IF cs[i].loop = "N" THEN <<"N", i>> ELSE <<cs[i].loop, 0>>
-Group(cs, i) == {j \in 1..Len(cs) : cs[j].fits /\ LoopKey(cs, j) = LoopKey(cs, i)}
+Group(cs, i) == {j \in 1..Len(cs) : cs[j].fits /\ ~cs[j].doomed /\ LoopKey(cs, j) = LoopKey(cs, i)}
 IsMax(cs, i) == \A j \in Group(cs, i) : ~Dominates(Vec(cs[j]), Vec(cs[i]))
 
 (* obs: [outcome |-> sequence over competitors of "proceeded" | "failed" | "untouched",
@@ -40,10 +43,11 @@ GroupOK(cs, obs, i) ==       \* i fits
      /\ \A j \in g : obs.outcome[j] \in {"proceeded", "failed"}
      /\ \E w \in pro : /\ IsMax(cs, w)                                  \* a most specific one wins
                        /\ pro = {j \in g : cs[j].act = cs[w].act}       \* identical actions all proceed, the rest fail
-Reps(cs) == {i \in 1..Len(cs) : cs[i].fits /\ \A j \in Group(cs, i) : i <= j}   \* one representative per group
+Reps(cs) == {i \in 1..Len(cs) : cs[i].fits /\ ~cs[i].doomed /\ \A j \in Group(cs, i) : i <= j}   \* one representative per group
 Allowed(cs, obs) ==
-  /\ \A i \in 1..Len(cs) : ~cs[i].fits => obs.outcome[i] = "untouched"  \* a match that did not fit is left alone
-  /\ \A i \in 1..Len(cs) : cs[i].fits => GroupOK(cs, obs, i)
+  /\ \A i \in 1..Len(cs) : (~cs[i].fits /\ ~cs[i].doomed) => obs.outcome[i] = "untouched"  \* a match that did not fit is left alone
+  /\ \A i \in 1..Len(cs) : cs[i].doomed => obs.outcome[i] = "failed"                        \* stopped with the flow that started it
+  /\ \A i \in 1..Len(cs) : (cs[i].fits /\ ~cs[i].doomed) => GroupOK(cs, obs, i)
   (* exactly one Start per loop, for the winner's action *)
   /\ Len(obs.starts) = Cardinality(Reps(cs))
   /\ \A a \in {cs[i].act : i \in 1..Len(cs)} :
